@@ -50,7 +50,7 @@ def gen_cases(tier, seed):
         for depth in ((1,) if tier == "quick" else (1, 2)):
             for prog, feats in P.enum_program_outputs(P.SHAPE_SCENARIOS[scen], (1, 1, 1), depth, both_orders=(depth == 1)):
                 tt = P.Typed(prog)
-                if any(a in tt.ancestors(b) for a in feats for b in feats):
+                if tt.node_nested(feats):
                     continue
                 k = len(M.TEMPLATES)
                 for nt in (1, 2, 3):
